@@ -876,8 +876,8 @@ def stage_probe(ctx, inputs, adefs, lib, models, d13_open, stats):
     for i in inputs:
         if i["label"] == "decision" and lib.get(i["id"]):
             got = "accepted" if (lib[i["id"]]["status"] == "out" and not lib[i["id"]]["tokerr"]) else "rejected"
-            want = C.DECISION_EXPECT[i["name"][4:]]
-            if got != want:
+            want = C.DECISION_EXPECT.get(i["name"][4:])
+            if want is not None and got != want:
                 report(ctx, "cfg-decision", {"what": f"the library {got} an input whose two same-named objects "
                                                      f"{'exist in the same builds (duplicates)' if want == 'rejected' else 'carry different cfg strings'}: "
                                                      f"expected {want}", "failing_input": describe(i),
